@@ -315,8 +315,8 @@ class Env:
                 triv = z3.is_true(z3.simplify(goal))
             else:
                 x, y = SC(x), SC(y)
-                dre = z3.simplify(x.re.z - y.re.z, som=True)
-                dim = z3.simplify(x.im.z - y.im.z, som=True)
+                dre = z3.simplify(x.re.z - y.re.z, som=True, sort_sums=True)
+                dim = z3.simplify(x.im.z - y.im.z, som=True, sort_sums=True)
                 triv = dre.eq(z3.RealVal(0)) and dim.eq(z3.RealVal(0))
                 parts = []
                 if not dre.eq(z3.RealVal(0)):
